@@ -48,6 +48,10 @@ def check(P, R):
     # static_file announces the slice length as Content-Length: the slice iterator must deliver exactly that many bytes (premise shared with C17)
     from . import c17
     c17.check_stream(P, Sub(R, default='C03.e', why='a Content-Length set by the framework equals the number of bytes returned (static_file, 206)'))
+    c17.check_parser(P, Sub(R, default='C03.e', why='a Content-Length set by the framework equals the number of bytes returned: the slice announced for a 206 lies inside the file'))
+    # the header list handed to start_response is well-formed: every value a Latin-1 native string (premise shared with C14.d)
+    from . import c14
+    c14.check_emission(P, Sub(R, default='C03.a', why='start_response is called with a well-formed header list'))
     # the Content-Length that _cast adds is written into the live response's own header dictionary: applying a returned / raised response
     # must copy its headers, not hand its dictionary over (a shared error object would keep the length of an earlier page)
     from . import c09
@@ -155,6 +159,12 @@ def check_wsgi(P, R):
     okc = codes is not None and {100, 101, 204, 304} <= codes
     R.ob('C03.f', f, sn.ast, okc, text=f'no-body statuses = {sorted(codes) if codes else "?"}', detail='' if okc else
          'the set of statuses without a body does not contain 100, 101, 204 and 304')
+    # ... and nothing else: any other status may carry a body, and _cast has already announced that body's length
+    extra_codes = sorted(c_ for c_ in (codes or ()) if isinstance(c_, int) and not (100 <= c_ < 200) and c_ not in (204, 304))
+    R.ob('C03.f', f, sn.ast, not extra_codes, text='only 1xx, 204 and 304 lose their body by status', detail='' if not extra_codes else
+         f'status {extra_codes} is treated as body-less: such a response may carry a body, _cast has set Content-Length from it, and dropping the body here sends '
+         f'Content-Length: n with zero bytes', why='a Content-Length set by the framework on a response that may carry a body equals the number of bytes returned',
+         key_extra='no-body-exact')
     okh = any(compare_parts(p) and compare_parts(p)[1] is ast.Eq and is_const(compare_parts(p)[2], 'HEAD')
               and 'REQUEST_METHOD' in src(compare_parts(p)[0]) for p in parts)
     R.ob('C03.f', f, sn.ast, okh, text='HEAD suppresses the body', detail='' if okh else 'HEAD requests keep their body')
